@@ -768,7 +768,8 @@ class Pure:
                     return VInt(z3.Length(a.t))
                 raise Unsupported("len of non-sequence")
             if name in ("min", "max"):
-                a, b = self.ev(e.args[0]).t, self.ev(e.args[1]).t
+                av, bv = self.ev(e.args[0]), self.ev(e.args[1])
+                a, b = (av.inner if isinstance(av, VOpt) else av).t, (bv.inner if isinstance(bv, VOpt) else bv).t
                 return VInt(z3.If(a <= b, a, b) if name == "min" else z3.If(a >= b, a, b))
             if name == "abs":
                 a = self.ev(e.args[0]).t
